@@ -62,5 +62,354 @@ theorem reportChain_eval (s : Sess) (t : Nat) (r : Raised) :
     · cases hu : (updateStates (toProject s.tasks) s.g s.w t (neighbours s.g t)).2 <;> simp [hg, hu]
   | _ => simp
 
+/-! ## What a protocol can do to the scheduling state: a small set of primitive moves -/
+
+/-- `Moves t s s'`: `s'` results from `s` by steps of the protocol of task `t` — changes that leave
+tasks / graph / sorter / stop flag alone, re-creations of the DAG, and "change `session.tasks`, then re-create". -/
+inductive Moves (t : Nat) : Sess → Sess → Prop
+  | refl (s : Sess) : Moves t s s
+  | other (s s' s'' : Sess) : Moves t s s' → s''.tasks = s'.tasks → s''.g = s'.g → s''.so = s'.so → s''.stop = s'.stop →
+      Moves t s s''
+  | re (s s' : Sess) : Moves t s s' → Moves t s (recreate s' t)
+  | setRe (s s' : Sess) (tk' : PTask) (twp' : List Nat) : Moves t s s' → tk'.id = t →
+      Moves t s (recreate { s' with tasks := setTask s'.tasks tk', twp := twp' } t)
+  | addRe (s s' : Sess) (kids : List PTask) : Moves t s s' →
+      Moves t s (recreate { s' with tasks := s'.tasks ++ kids } t)
+
+theorem Moves.trans {t : Nat} {a b c : Sess} (h1 : Moves t a b) (h2 : Moves t b c) : Moves t a c := by
+  induction h2 with
+  | refl => exact h1
+  | other s' s'' _ e1 e2 e3 e4 ih => exact Moves.other _ _ _ ih e1 e2 e3 e4
+  | re s' _ ih => exact Moves.re _ _ ih
+  | setRe s' tk' twp' _ hid ih => exact Moves.setRe _ _ tk' twp' ih hid
+  | addRe s' kids _ ih => exact Moves.addRe _ _ kids ih
+
+theorem addTwp_contains (twp : List Nat) (t : Nat) : (addTwp twp t).contains t = true := by
+  unfold addTwp
+  by_cases h : twp.contains t = true
+  · simp only [h, if_true]
+  · simp only [h, Bool.false_eq_true, if_false]; simp
+
+theorem findTask_id {ts : List PTask} {t : Nat} {tk : PTask} (h : findTask ts t = some tk) : tk.id = t := by
+  unfold findTask at h
+  have := List.find?_some h
+  simpa using this
+
+theorem setupProvisional_moves (s : Sess) (t : Nat) : Moves t s (setupProvisional s t) := by
+  unfold setupProvisional
+  cases hf : findTask s.tasks t with
+  | none => exact Moves.refl s
+  | some tk =>
+    simp only []
+    by_cases hu : unresolved tk.pdeps = true
+    · simp only [hu, if_true, addTwp_contains]
+      exact Moves.setRe s s _ _ (Moves.refl s) (by simpa using findTask_id hf)
+    · simp only [hu, Bool.false_eq_true, if_false]
+      split
+      · exact Moves.re s s (Moves.refl s)
+      · exact Moves.refl s
+
+theorem collectProducts_moves (s : Sess) (t : Nat) : Moves t s (collectProducts s t) := by
+  unfold collectProducts
+  cases hf : findTask s.tasks t with
+  | none => exact Moves.refl s
+  | some tk =>
+    simp only []
+    split
+    · exact Moves.refl s
+    · by_cases hu : unresolved tk.pprods = true
+      · simp only [hu, if_true, addTwp_contains]
+        exact Moves.setRe s s _ _ (Moves.refl s) (by simpa using findTask_id hf)
+      · simp only [hu, Bool.false_eq_true, if_false]
+        split
+        · exact Moves.re s s (Moves.refl s)
+        · exact Moves.refl s
+
+theorem setupExecute_moves (s : Sess) (t : Nat) : Moves t s (setupExecute s t).1 := by
+  unfold setupExecute
+  split
+  · exact Moves.refl s
+  · split
+    · exact Moves.refl s
+    · split
+      · exact Moves.refl s
+      · exact Moves.refl s
+      · exact collectProducts_moves s t
+
+theorem genExecute_moves (Y : YieldFn) (s : Sess) (tk : PTask) (hid : tk.id = t) : Moves t s (genExecute Y s tk).1 := by
+  unfold genExecute
+  have h0 : Moves t s (invoke s tk) := Moves.other s s _ (Moves.refl s) rfl rfl rfl rfl
+  simp only []
+  split
+  · exact h0
+  · split
+    · exact h0
+    · rw [← hid]
+      exact Moves.addRe s (invoke s tk) _ (hid ▸ h0)
+
+theorem teardown_moves (s : Sess) (t : Nat) : Moves t s (teardown s t).1 := by
+  unfold teardown
+  split
+  · exact Moves.refl s
+  · split
+    · exact Moves.refl s
+    · simp only []
+      split
+      · exact collectProducts_moves s t
+      · split <;> exact collectProducts_moves s t
+
+theorem setupChain_moves (s : Sess) (t : Nat) : Moves t s (setupChain t Generated.setupOrder s).1 := by
+  rw [setupChain_eval]
+  split
+  · exact setupProvisional_moves s t
+  · exact (setupProvisional_moves s t).trans (setupExecute_moves _ t)
+
+theorem execChain_moves (Y : YieldFn) (F : BodyFn) (s : Sess) (t : Nat) :
+    Moves t s (execChain Y F t Generated.executeOrder s).1 := by
+  rw [execChain_eval]
+  cases hf : findTask s.tasks t with
+  | none => exact Moves.refl s
+  | some tk =>
+    simp only []
+    split
+    · exact genExecute_moves Y s tk (findTask_id hf)
+    · exact Moves.other s s _ (Moves.refl s) rfl rfl rfl rfl
+
+theorem runPhases_moves (Y : YieldFn) (F : BodyFn) (s : Sess) (t : Nat) : Moves t s (runPhases Y F s t).1 := by
+  unfold runPhases
+  have h1 := setupChain_moves s t
+  generalize setupChain t Generated.setupOrder s = r1 at h1 ⊢
+  obtain ⟨s1, ra⟩ := r1
+  cases ra with
+  | none =>
+    simp only []
+    have h2 := execChain_moves Y F s1 t
+    generalize execChain Y F t Generated.executeOrder s1 = r2 at h2 ⊢
+    obtain ⟨s2, b⟩ := r2
+    cases b with
+    | true => exact h1.trans h2
+    | false => exact (h1.trans h2).trans (teardown_moves s2 t)
+  | _ => exact h1
+
+theorem updateStates_fs (P : Project) (g : G) (t : Nat) : ∀ (vs : List Nat) (w : World), (updateStates P g w t vs).1.fs = w.fs
+  | [], w => rfl
+  | v :: vs, w => by
+    unfold updateStates
+    split
+    · rfl
+    · rw [updateStates_fs P g t vs]
+
+theorem reportChain_frame (s : Sess) (t : Nat) (r : Raised) :
+    let s' := reportChain t r Generated.processReportOrder s
+    s'.tasks = s.tasks ∧ s'.g = s.g ∧ s'.so = s.so ∧ s'.stop = s.stop ∧ s'.log = s.log ∧ s'.recv = s.recv ∧ s'.twp = s.twp ∧
+      s'.w.fs = s.w.fs := by
+  rw [reportChain_eval]
+  cases r <;> simp only [addReport] <;> (try (split <;> (try split))) <;> simp [updateStates_fs]
+
+theorem protocol_moves (Y : YieldFn) (F : BodyFn) (s : Sess) (t : Nat) : Moves t s (protocol Y F s t) := by
+  unfold protocol
+  have h := reportChain_frame (runPhases Y F s t).1 t (runPhases Y F s t).2
+  exact Moves.other s _ _ (runPhases_moves Y F s t) h.1 h.2.1 h.2.2.1 h.2.2.2.1
+
+/-! ## Graph facts: what `create_dag_from_session` guarantees about the graph it returns -/
+
+theorem mem_addNode_nodes {g : G} {v x : Nat} : x ∈ (g.addNode v).nodes ↔ x ∈ g.nodes ∨ x = v := by
+  unfold G.addNode
+  by_cases h : g.nodes.contains v = true
+  · simp only [h, if_true]
+    constructor
+    · exact Or.inl
+    · rintro (h' | rfl)
+      · exact h'
+      · simpa using h
+  · have h' : v ∉ g.nodes := by simpa using h
+    simp [h']
+
+@[simp] theorem addNode_edges (g : G) (v : Nat) : (g.addNode v).edges = g.edges := by
+  unfold G.addNode; split <;> rfl
+
+theorem mem_addEdge_edges {g : G} {u v : Nat} {e : Nat × Nat} :
+    e ∈ (g.addEdge u v).edges ↔ e ∈ g.edges ∨ e = (u, v) := by
+  unfold G.addEdge
+  simp only [addNode_edges]
+  by_cases h : g.edges.contains (u, v) = true
+  · simp only [h, if_true, addNode_edges]
+    constructor
+    · exact Or.inl
+    · rintro (h' | rfl)
+      · exact h'
+      · simpa using h
+  · have h' : (u, v) ∉ g.edges := by simpa using h
+    simp [h']
+
+theorem mem_addEdge_nodes {g : G} {u v x : Nat} :
+    x ∈ (g.addEdge u v).nodes ↔ x ∈ g.nodes ∨ x = u ∨ x = v := by
+  unfold G.addEdge
+  simp only [addNode_edges]
+  split <;> simp [mem_addNode_nodes, or_assoc]
+
+/-- `g ≤ g'`: nothing was removed. -/
+def GLe (g g' : G) : Prop := (∀ x ∈ g.nodes, x ∈ g'.nodes) ∧ (∀ e ∈ g.edges, e ∈ g'.edges)
+
+theorem GLe.refl (g : G) : GLe g g := ⟨fun _ h => h, fun _ h => h⟩
+theorem GLe.trans {a b c : G} (h1 : GLe a b) (h2 : GLe b c) : GLe a c :=
+  ⟨fun x h => h2.1 x (h1.1 x h), fun e h => h2.2 e (h1.2 e h)⟩
+theorem GLe.addEdge (g : G) (u v : Nat) : GLe g (g.addEdge u v) :=
+  ⟨fun _ h => mem_addEdge_nodes.2 (Or.inl h), fun _ h => mem_addEdge_edges.2 (Or.inl h)⟩
+theorem GLe.addNode (g : G) (v : Nat) : GLe g (g.addNode v) :=
+  ⟨fun _ h => mem_addNode_nodes.2 (Or.inl h), fun _ h => by simpa using h⟩
+
+theorem GLe.foldl {α} (f : G → α → G) (hf : ∀ g x, GLe g (f g x)) : ∀ (xs : List α) (g : G), GLe g (xs.foldl f g)
+  | [], g => GLe.refl g
+  | x :: xs, g => (hf g x).trans (GLe.foldl f hf xs (f g x))
+
+/-- The per-task step of `_create_dag_from_tasks`. -/
+def baseStep (g : G) (t : TaskSpec) : G :=
+  let g := g.addNode (tv t.id)
+  let g := t.deps.foldl (fun g d => g.addEdge (nv d) (tv t.id)) g
+  t.prods.foldl (fun g p => g.addEdge (tv t.id) (nv p)) g
+
+theorem baseGraph_eq (P : Project) : baseGraph P = P.tasks.foldl baseStep G.empty := rfl
+
+theorem foldl_addEdge_mem {α} (mk : α → Nat × Nat) : ∀ (xs : List α) (g : G) (x : α), x ∈ xs →
+    mk x ∈ (xs.foldl (fun g y => g.addEdge (mk y).1 (mk y).2) g).edges
+  | y :: ys, g, x, hx => by
+    simp only [List.foldl_cons]
+    rcases List.mem_cons.1 hx with rfl | hx
+    · exact (GLe.foldl _ (fun g y => GLe.addEdge g _ _) ys _).2 _ (mem_addEdge_edges.2 (Or.inr rfl))
+    · exact foldl_addEdge_mem mk ys _ x hx
+
+theorem baseStep_le (g : G) (t : TaskSpec) : GLe g (baseStep g t) := by
+  unfold baseStep
+  exact ((GLe.addNode g _).trans (GLe.foldl _ (fun g d => GLe.addEdge g _ _) _ _)).trans
+    (GLe.foldl _ (fun g p => GLe.addEdge g _ _) _ _)
+
+theorem baseStep_spec (g : G) (t : TaskSpec) :
+    tv t.id ∈ (baseStep g t).nodes ∧ (∀ d ∈ t.deps, (nv d, tv t.id) ∈ (baseStep g t).edges) ∧
+      (∀ p ∈ t.prods, (tv t.id, nv p) ∈ (baseStep g t).edges) := by
+  unfold baseStep
+  refine ⟨?_, ?_, ?_⟩
+  · exact ((GLe.foldl _ (fun g d => GLe.addEdge g _ _) _ _).trans (GLe.foldl _ (fun g p => GLe.addEdge g _ _) _ _)).1 _
+      (mem_addNode_nodes.2 (Or.inr rfl))
+  · intro d hd
+    exact (GLe.foldl _ (fun g p => GLe.addEdge g _ _) _ _).2 _
+      (foldl_addEdge_mem (fun d => (nv d, tv t.id)) t.deps _ d hd)
+  · intro p hp
+    exact foldl_addEdge_mem (fun p => (tv t.id, nv p)) t.prods _ p hp
+
+theorem baseGraph_spec (P : Project) (t : TaskSpec) (ht : t ∈ P.tasks) :
+    tv t.id ∈ (baseGraph P).nodes ∧ (∀ d ∈ t.deps, (nv d, tv t.id) ∈ (baseGraph P).edges) ∧
+      (∀ p ∈ t.prods, (tv t.id, nv p) ∈ (baseGraph P).edges) := by
+  rw [baseGraph_eq]
+  generalize G.empty = g0
+  obtain ⟨tasks⟩ := P
+  simp only at ht ⊢
+  induction tasks generalizing g0 with
+  | nil => cases ht
+  | cons x xs ih =>
+    simp only [List.foldl_cons]
+    rcases List.mem_cons.1 ht with rfl | ht
+    · have h := baseStep_spec g0 t
+      have hle := GLe.foldl baseStep baseStep_le xs (baseStep g0 t)
+      exact ⟨hle.1 _ h.1, fun d hd => hle.2 _ (h.2.1 d hd), fun p hp => hle.2 _ (h.2.2 p hp)⟩
+    · exact ih _ ht
+
+theorem modifyDag_le (P : Project) (g : G) : GLe g (modifyDag P g) := by
+  unfold modifyDag
+  refine GLe.foldl _ (fun g t => ?_) _ _
+  refine GLe.foldl _ (fun g o => ?_) _ _
+  split
+  · exact GLe.refl g
+  · exact GLe.foldl _ (fun g s => GLe.addEdge g _ _) _ _
+
+/-- `create_dag_from_session` without `-k`/`-m`, in the extracted step order: the graph it returns. -/
+theorem createDag_ok {P : Project} {g : G} {m : List Nat} (h : createDag P {} = .ok (g, m)) :
+    g = modifyDag P (baseGraph P) ∧ g.hasCycle = false := by
+  simp only [createDag, createDag.go, Generated.dagPipeline, String.reduceBEq, Bool.false_eq_true, if_false, if_true] at h
+  split at h
+  · cases h
+  split at h
+  · cases h
+  split at h
+  · cases h
+  rename_i hc
+  simp only [Except.ok.injEq, Prod.mk.injEq] at h
+  exact ⟨h.1.symm, by rw [← h.1]; simpa using hc⟩
+
+theorem createDag_spec {ts : List PTask} {g : G} {m : List Nat} (h : createDag (toProject ts) {} = .ok (g, m))
+    (u : PTask) (hu : u ∈ ts) :
+    tv u.id ∈ g.nodes ∧ (∀ d ∈ u.allDeps, (nv d, tv u.id) ∈ g.edges) ∧ (∀ p ∈ u.allProds, (tv u.id, nv p) ∈ g.edges) := by
+  obtain ⟨rfl, _⟩ := createDag_ok h
+  have hm : toSpec u ∈ (toProject ts).tasks := List.mem_map.2 ⟨u, hu, rfl⟩
+  have hb := baseGraph_spec (toProject ts) (toSpec u) hm
+  have hle := modifyDag_le (toProject ts) (baseGraph (toProject ts))
+  exact ⟨hle.1 _ hb.1, fun d hd => hle.2 _ (hb.2.1 d hd), fun p hp => hle.2 _ (hb.2.2 p hp)⟩
+
+theorem mem_union {a b : List Nat} {x : Nat} : x ∈ G.union a b ↔ x ∈ a ∨ x ∈ b := by
+  unfold G.union
+  induction b generalizing a with
+  | nil => simp
+  | cons y ys ih =>
+    simp only [List.foldl_cons, List.mem_cons]
+    rw [ih]
+    by_cases h : a.contains y = true
+    · simp only [h, if_true]
+      have : y ∈ a := by simpa using h
+      constructor
+      · rintro (h1 | h1)
+        · exact Or.inl h1
+        · exact Or.inr (Or.inr h1)
+      · rintro (h1 | rfl | h1)
+        · exact Or.inl h1
+        · exact Or.inl this
+        · exact Or.inr h1
+    · simp only [h, Bool.false_eq_true, if_false, List.mem_append, List.mem_singleton]
+      constructor
+      · rintro ((h1 | rfl) | h1)
+        · exact Or.inl h1
+        · exact Or.inr (Or.inl rfl)
+        · exact Or.inr (Or.inr h1)
+      · rintro (h1 | rfl | h1)
+        · exact Or.inl (Or.inl h1)
+        · exact Or.inl (Or.inr rfl)
+        · exact Or.inr h1
+
+theorem mem_preds {g : G} {u v : Nat} : u ∈ g.preds v ↔ (u, v) ∈ g.edges := by
+  unfold G.preds
+  simp only [List.mem_map, List.mem_filter, beq_iff_eq]
+  constructor
+  · rintro ⟨e, ⟨he, rfl⟩, rfl⟩; exact he
+  · intro h; exact ⟨(u, v), ⟨h, rfl⟩, rfl⟩
+
+theorem mem_succs {g : G} {u v : Nat} : v ∈ g.succs u ↔ (u, v) ∈ g.edges := by
+  unfold G.succs
+  simp only [List.mem_map, List.mem_filter, beq_iff_eq]
+  constructor
+  · rintro ⟨e, ⟨he, rfl⟩, rfl⟩; exact he
+  · intro h; exact ⟨(u, v), ⟨h, rfl⟩, rfl⟩
+
+theorem iter_stepBack_mono (g : G) {x : Nat} : ∀ (n : Nat) (s : List Nat), x ∈ s → x ∈ G.iter g.stepBack n s
+  | 0, _, h => h
+  | n + 1, s, h => by
+    unfold G.iter
+    exact iter_stepBack_mono g n _ (by unfold G.stepBack; exact mem_union.2 (Or.inl h))
+
+/-- A producer is a graph ancestor of a consumer of one of its products (path of two edges). -/
+theorem anc_two_step {g : G} {u x v : Nat} (h1 : (u, x) ∈ g.edges) (h2 : (x, v) ∈ g.edges) (hne : u ≠ v) :
+    u ∈ g.anc v := by
+  unfold G.anc G.ancRaw
+  refine List.mem_filter.2 ⟨?_, by simpa using hne⟩
+  have hlen : g.edges.length ≠ 0 := by
+    intro h0
+    have := List.eq_nil_of_length_eq_zero h0
+    rw [this] at h1; cases h1
+  obtain ⟨n, hn⟩ := Nat.exists_eq_succ_of_ne_zero hlen
+  rw [hn]
+  unfold G.iter
+  apply iter_stepBack_mono
+  unfold G.stepBack
+  refine mem_union.2 (Or.inr ?_)
+  exact List.mem_flatMap.2 ⟨x, mem_preds.2 h2, mem_preds.2 h1⟩
+
 end Prov
 end Pytask
